@@ -86,7 +86,7 @@ contract(
     verify=False,
     assumed=True,
     bounded=("bounded/transfer_faults.py", 60, 900),
-    props=["C04", "C11"],
+    props=["C04", "C11", "C07"],
     doc="[to be verified against ObjectDB.add] every requested object is placed in dest or returned as failed; nothing else changes",
 )
 
